@@ -28,14 +28,19 @@ type sharedWrite struct {
 // findSharedWrites evaluates New and every run-phase entry and reports every
 // store whose target object was created by package initialisation (package-level
 // variables and the memory they point to): that state is shared by all instances.
-func findSharedWrites(c *Ctx) (writes []sharedWrite, stores int) {
+func findSharedWrites(c *Ctx) (writes, unresolved []sharedWrite, stores int) {
 	it := c.W.It
 	limit := c.W.NObjPkgInit
 	phase := "construction"
 	entry := "gameboy.New"
 	hook := func(_ *ai.State, at ssa.Instruction, p *ai.Ptr, keys []ai.CellKey, _ ai.Value, _ bool) {
 		stores++
+		if p == nil && storesIntoHostBuffer(c, at) {
+			return // the buffer a host library passed to its callback (audio output): host memory, not emulator state
+		}
 		if p == nil {
+			// a store whose target the interpreter cannot resolve may hit shared memory: fail closed
+			unresolved = append(unresolved, sharedWrite{Fn: outerFn(at.Parent()), At: at, Phase: phase, Entry: entry})
 			return
 		}
 		if p.Obj.ID <= limit && p.Obj.Mode != ai.ModeOpaque {
@@ -49,7 +54,7 @@ func findSharedWrites(c *Ctx) (writes []sharedWrite, stores int) {
 	phase = "run"
 	c.evalAllEntries(ai.Hooks{Store: hook}, nil)
 	// entry attribution is not needed for identity
-	return writes, stores
+	return writes, unresolved, stores
 }
 
 func repoGlobals(c *Ctx) []*ssa.Global {
@@ -74,7 +79,16 @@ func checkC25(c *Ctx) *report.Result {
 	r.TrustedBase = []string{"go/types, go/ssa (x/tools v0.29.0)", "the abstract interpreter's pointer resolution (allocation-site objects)", "API stubs for glfw/gl/portaudio"}
 
 	globals := repoGlobals(c)
-	writes, stores := findSharedWrites(c)
+	writes, unresolved, stores := findSharedWrites(c)
+	seenU := map[string]bool{}
+	for _, u := range unresolved {
+		key := fnName(u.Fn)
+		if seenU[key] {
+			continue
+		}
+		seenU[key] = true
+		r.Fail("undecided", "G2", "store through an unresolved pointer in "+key, c.pos(u.At), "the target of this store (executed during "+u.Phase+") cannot be resolved to an allocation site, so it may be memory shared between instances (for example a value taken out of a package-level map or interface)")
+	}
 	r.Extra["stores_examined"] = stores
 	written := map[string][]sharedWrite{}
 	for _, w := range writes {
@@ -124,3 +138,33 @@ func checkC25(c *Ctx) *report.Result {
 }
 
 var _ = world.IsRepo
+
+// storesIntoHostBuffer: the store's address is an element of a slice/pointer parameter of a
+// function that the constructor handed to a host library as a callback.
+func storesIntoHostBuffer(c *Ctx, at ssa.Instruction) bool {
+	st, ok := at.(*ssa.Store)
+	if !ok {
+		return false
+	}
+	v := st.Addr
+	for i := 0; i < 8; i++ {
+		switch x := v.(type) {
+		case *ssa.IndexAddr:
+			v = x.X
+			continue
+		case *ssa.FieldAddr:
+			v = x.X
+			continue
+		case *ssa.Parameter:
+			fn := x.Parent()
+			for _, e := range c.W.Entries {
+				if e.Kind == "host-callback" && unwrapBound(e.Fn) == fn {
+					return true
+				}
+			}
+			return false
+		}
+		break
+	}
+	return false
+}
